@@ -124,6 +124,7 @@ def run(ctx):
     _x86_register_fields(ctx)
     _arm_reference(ctx)
     _rex_emission(ctx)
+    arm_addressing_bits(ctx, "C08.R9")
 
 
 # mnemonic pairs that are architecturally the same instruction (aliases)
@@ -296,3 +297,73 @@ def _rex_emission(ctx):
                     ctx.ob("C08.R8", "%s:%s.encode" % (rel, cls.name), "the REX prefix is emitted whenever any of W, R, X, B is set", whole or bits == set("wrxb"), construct="rex-all-bits:%s" % cls.name, node=i,
                            detail="test `%s` looks at %s" % (norm(i.test), "the whole low nibble" if whole else sorted(bits)))
     ctx.need(n >= 1, "conditional REX emission not found")
+
+
+def arm_addressing_bits(ctx, rid):
+    """ARM A32 load/store with immediate offset, A5.2.8 / A5.3: P (bit 24) = 1 and W (bit 21) = 0 select plain
+    offset addressing (no write-back of the base register); U (bit 23) = 1 adds the offset, 0 subtracts it, and the
+    immediate holds the magnitude.  P = 0 would be the post-indexed form, which loads from [rn] and WRITES rn."""
+    from ..core import try_const
+    from ..flow import controlling
+    ctx.rule(rid, "ARM load/store encoders with an immediate offset use offset addressing: bit 24 (P) is always 1, bit 21 (W) is never 1, bit 23 (U) is 1 exactly when the offset is >= 0 and the stored immediate is its magnitude", floor=12)
+    rel = "ppci/arch/arm/arm_instructions.py"
+    mod = ctx.project.module(rel)
+    tokm = relocs.TokenModel(ctx.project, ctx.project.cls("ppci/arch/arm/isa.py", "ArmToken"))
+    n_cls = 0
+    for cls in [c for c in mod.tree.body if isinstance(c, ast.ClassDef)]:
+        enc = [f for f in cls.body if isinstance(f, ast.FunctionDef) and f.name == "encode"]
+        ops = {t.id for st in cls.body if isinstance(st, ast.Assign) and isinstance(st.value, ast.Call) and norm(st.value.func) == "Operand" for t in st.targets if isinstance(t, ast.Name)}
+        if not enc or not {"rn", "offset"} <= ops:
+            continue
+        n_cls += 1
+        site = "%s:%s" % (rel, cls.name)
+        stores = []   # (bit range, value node, [(cond text, polarity)])
+        for n in ast.walk(enc[0]):
+            if not isinstance(n, ast.Assign):
+                continue
+            t = n.targets[0]
+            rng = None
+            if isinstance(t, ast.Subscript) and norm(t.value).startswith("tokens"):
+                sl = t.slice
+                if isinstance(sl, ast.Slice):
+                    lo, hi = try_const(sl.lower), try_const(sl.upper)
+                    rng = (lo, hi) if isinstance(lo, int) and isinstance(hi, int) else None
+                elif isinstance(try_const(sl), int):
+                    rng = (try_const(sl), try_const(sl) + 1)
+            elif isinstance(t, ast.Attribute) and norm(t.value).startswith("tokens") and t.attr in tokm.fields and len(tokm.fields[t.attr]) == 1:
+                rng = tuple(tokm.fields[t.attr][0])
+            if rng is not None:
+                stores.append((rng, n.value, [(" ".join(norm(c).split()), pol) for c, pol, _ in controlling(n, enc[0])]))
+        def at(bit):
+            return [(v, c) for r, v, c in stores if r == (bit, bit + 1)]
+        p = at(24)
+        ctx.ob(rid, site, "bit 24 (P) is set to 1 unconditionally (offset addressing, not post-indexed)", len(p) == 1 and try_const(p[0][0]) == 1 and not p[0][1], construct="arm-P:" + cls.name,
+               detail="; ".join("%s under %s" % (norm(v), c) for v, c in p) or "bit 24 is never written")
+        w = at(21)
+        ctx.ob(rid, site, "bit 21 (W) stays 0 (no write-back: the base register is declared read-only)", all(try_const(v) == 0 for v, _ in w), construct="arm-W:" + cls.name, detail="; ".join(norm(v) for v, _ in w))
+        u = at(23)
+        if "self.offset" not in norm(enc[0]):
+            # register-offset form (the declared `offset` operand is not encoded): U is the constant 1 (add the index register)
+            ctx.ob(rid, site, "register-offset form: bit 23 (U) is 1 (the index register is added)", len(u) == 1 and try_const(u[0][0]) == 1 and not u[0][1], construct="arm-U:" + cls.name)
+            continue
+        # offset == 0 may go either way (adding or subtracting zero)
+        POS = [("self.offset >= 0", True), ("self.offset > 0", True), ("self.offset < 0", False), ("self.offset <= 0", False), ("0 <= self.offset", True), ("0 < self.offset", True)]
+        NEG = [(t, not pol) for t, pol in POS]
+        is_pos = lambda c: any(x in c for x in POS)
+        is_neg = lambda c: any(x in c for x in NEG)
+        pos = [v for v, c in u if is_pos(c)]
+        neg = [v for v, c in u if is_neg(c)]
+        ok = len(u) == 2 and len(pos) == 1 and len(neg) == 1 and try_const(pos[0]) == 1 and try_const(neg[0]) == 0
+        ctx.ob(rid, site, "bit 23 (U) is 1 when self.offset >= 0 and 0 otherwise", ok, construct="arm-U:" + cls.name, detail="; ".join("%s under %s" % (norm(v), c) for v, c in u))
+        mags = [(n, [(" ".join(norm(c).split()), pol) for c, pol, _ in controlling(n, enc[0])]) for n in ast.walk(enc[0]) if isinstance(n, ast.Assign) and "self.offset" in norm(n.value) and not isinstance(n.value, ast.Compare)]
+        okm = bool(mags)
+        for n, c in mags:
+            v = " ".join(norm(n.value).split())
+            if is_pos(c):
+                okm = okm and v == "self.offset"
+            elif is_neg(c):
+                okm = okm and v in ("-self.offset", "abs(self.offset)")
+            else:
+                okm = False
+        ctx.ob(rid, site, "the immediate holds the magnitude: self.offset when adding, -self.offset when subtracting", okm, construct="arm-magnitude:" + cls.name, detail="; ".join(" ".join(norm(n).split()) for n, _ in mags))
+    ctx.need(n_cls >= 4, "ARM load/store encoders with immediate offset not found (%d)" % n_cls)
